@@ -82,6 +82,7 @@ Ltac bool_hyps :=
   | H : _ && _ = true |- _ => apply andb_prop in H as [? ?]
   | H : _ && _ = false |- _ => apply andb_false_iff in H
   | H : wk_idle _ = true |- _ => apply wk_idle_true in H
+  | H : _ || _ = false |- _ => apply orb_false_elim in H as [? ?]
   | H : negb _ = true |- _ => apply negb_true_iff in H
   | H : negb _ = false |- _ => apply negb_false_iff in H
   | H : (_ <? _) = true |- _ => apply Nat.ltb_lt in H
@@ -91,3 +92,12 @@ Ltac bool_hyps :=
   | H : (_ =? _) = true |- _ => apply Nat.eqb_eq in H
   | H : (_ =? _) = false |- _ => apply Nat.eqb_neq in H
   end.
+
+(* forward-chain hypotheses of the form [a = a -> ...] / [P -> ...] with P in the context, then close *)
+Ltac saturate :=
+  repeat match goal with
+  | H : ?a = ?a -> _ |- _ => specialize (H eq_refl)
+  | H : ?P -> _, H' : ?P |- _ => specialize (H H')
+  | H : _ /\ _ |- _ => destruct H
+  end.
+Ltac sat_solve := intros; saturate; bool_hyps; subst; saturate; first [done | congruence | (exfalso; lia)].
